@@ -682,19 +682,23 @@ class SCFG(Sized):
         A region block mirrors the outgoing jump targets of its exiting
         block. When a region is re-targeted, the exiting block (and, if that
         is a region too, its exiting block, recursively) must be re-targeted
-        position by position, keeping declared backedges in place.
+        position by position, keeping declared backedges in place. When
+        several targets of the region were merged into one, the positions
+        left over are dropped; a target appended to the region is appended.
         """
         while isinstance(block, RegionBlock):
             assert block.subregion is not None
             assert block.exiting is not None
             inner = block.subregion.graph.pop(block.exiting)
-            fresh = iter(block.jump_targets)
-            inner = inner.replace_jump_targets(
-                jump_targets=tuple(
-                    t if t in inner.backedges else next(fresh)
-                    for t in inner._jump_targets
-                )
-            )
+            fresh = list(block.jump_targets)
+            jt: List[str] = []
+            for t in inner._jump_targets:
+                if t in inner.backedges:
+                    jt.append(t)
+                elif fresh:
+                    jt.append(fresh.pop(0))
+            jt.extend(fresh)
+            inner = inner.replace_jump_targets(jump_targets=tuple(jt))
             block.subregion.add_block(inner)
             block = inner
 
